@@ -144,7 +144,8 @@ def run(tier):
         "GenerateKey on streams whose first candidates are 0, n-1, n, n+1, 2^256-1 in every order of up to two "
         "(thorough: three) before a valid one; TestPrivateKey on boundary and random 32-byte values and on shorter / "
         "longer encodings; DerivePublic on 0, 1, n-2, n-1, n, n+1, 2^256-1 and other lengths; CheckOnCurve on curve "
-        "points, one-bit neighbours, negated/swapped, small-x points and their non-canonical x + p form, wrong lengths; "
+        "points, one-bit neighbours, negated/swapped, small-x and small-y points and their non-canonical x + p / y + p "
+        "forms, word-structured keys and coordinates on both sides of the bounds, short-read sources, wrong lengths; "
         "TLC recomputes key, [d]G, bytes consumed and every verdict with modules SM2/EC/SignFlow/Reader",
         ["TLC; SM2/EC model-checked on a toy curve; SignFlow/Reader model-checked in MC_Reader",
          "BigNat/EC accelerators compared with the TLA+ definitions on every run"])
